@@ -61,10 +61,19 @@ func describeIssue(x ref.XIssue) string {
 		msg = *x.Opts.MsgFunc
 	}
 	var params map[string]any
+	defer func() {}()
 	if x.Opts.Params != nil {
 		params = x.Opts.Params
 	} else if x.Test != nil {
 		params = x.Test.BuiltinParams()
+	}
+	if x.Opts.MsgFunc != nil && x.Opts.MsgFuncReads && x.Opts.Message == nil {
+		var pp *string
+		if x.Opts.Path == nil {
+			np := x.Path
+			pp = &np
+		}
+		msg = spec.ComposeMsg(*x.Opts.MsgFunc, x.Code, x.Dtype, params, pp)
 	}
 	ps := "nil"
 	if len(params) > 0 {
@@ -130,6 +139,17 @@ func c17Chain(c *core.Ctx) {
 	}
 	if !leaf.Kind.IsPrimitive() {
 		return
+	}
+	// message functions that read the issue they are given
+	for i := range leaf.Tests {
+		if leaf.Tests[i].Opts.MsgFunc != nil && leaf.Tests[i].Opts.Message == nil {
+			leaf.Tests[i].Opts.MsgFuncReads = true
+		}
+	}
+	for i := range leaf.Mods {
+		if leaf.Mods[i].Opts.MsgFunc != nil && leaf.Mods[i].Opts.Message == nil {
+			leaf.Mods[i].Opts.MsgFuncReads = true
+		}
 	}
 	// last-call-wins with and without options: Required(opts) ... Required() and the reverse, Optional() in between
 	if c.R.Intn(3) == 0 {
